@@ -5,6 +5,7 @@
 -/
 import FlacModel.Model.Basic
 import FlacModel.Gen.EncConst
+import FlacModel.Gen.Meta
 
 namespace Flac
 open Gen
